@@ -57,6 +57,10 @@ type Scenario struct {
 	Dst          string    `json:"dst"`
 	Allow        []string  `json:"allow,omitempty"`
 	FailFirst    bool      `json:"fail_first,omitempty"`    // archive 0 is an earlier call that is refused half-way; the destination is emptied afterwards
+	ConcPeer  bool    `json:"conc_peer,omitempty"`  // while each observed Unpack runs, another caller unpacks a small fixed archive into /w/peer-dst with the same Packer (interleaved at Read calls by the schedule tape)
+	SchedSeed uint64  `json:"sched_seed,omitempty"`
+	Tapes     [][]int `json:"tapes,omitempty"`
+	HaveTape  bool    `json:"have_tape,omitempty"`
 	SharedPacker bool      `json:"shared_packer,omitempty"` // one *Packer serves all Unpack calls of the scenario
 	Archives     []Archive `json:"archives"`
 }
